@@ -799,7 +799,10 @@ func guardText(g guard) string {
 	return "!(" + valText(g.cond) + ")"
 }
 
-// extraGuards lists the guards of b accepted by none of the predicates.
+// extraGuards lists the guards of b accepted by none of the predicates. Besides the single dominating tests it looks at
+// short-circuit chains: a block on b's dominator chain that is entered only over the same-polarity edges of a chain of
+// Ifs (`if a && b { continue }` leaves over the false edges of a and of b) is guarded by the negated conjunction; each
+// conjunct is offered to the predicates, an unaccepted one is reported as a compound guard.
 func extraGuards(b *ssa.BasicBlock, allowed ...func(guard) bool) []string {
 	var out []string
 next:
@@ -811,7 +814,70 @@ next:
 		}
 		out = append(out, guardText(g))
 	}
+	for d := b; d != nil; d = d.Idom() {
+		for _, cg := range compoundEntryGuards(d) {
+			ok := false
+			for _, a := range allowed {
+				if a(cg) {
+					ok = true
+				}
+			}
+			if !ok {
+				out = append(out, "part of a compound test: "+guardText(cg))
+			}
+		}
+	}
 	return out
+}
+
+// compoundEntryGuards: d has several predecessors, each ending in an If, that form one short-circuit chain (p1 -> p2 ->
+// … each pi having pi-1 as its only predecessor) and all reach d over the edge of the same polarity. Returns one guard
+// per conjunct (with the polarity of the edge taken); nil when d is not such a merge.
+func compoundEntryGuards(d *ssa.BasicBlock) []guard {
+	if len(d.Preds) < 2 {
+		return nil
+	}
+	var gs []guard
+	pol := -1
+	inChain := map[*ssa.BasicBlock]bool{}
+	for _, p := range d.Preds {
+		inChain[p] = true
+	}
+	heads := 0
+	for _, p := range d.Preds {
+		if len(p.Instrs) == 0 {
+			return nil
+		}
+		iff, ok := p.Instrs[len(p.Instrs)-1].(*ssa.If)
+		if !ok {
+			return nil
+		}
+		var edge int
+		switch d {
+		case p.Succs[0]:
+			edge = 1
+		case p.Succs[1]:
+			edge = 0
+		default:
+			return nil
+		}
+		if pol == -1 {
+			pol = edge
+		} else if pol != edge {
+			return nil
+		}
+		// chain link: the block's only predecessor is another member, except for the head
+		if len(p.Preds) == 1 && inChain[p.Preds[0]] {
+			// fine
+		} else {
+			heads++
+		}
+		gs = append(gs, guard{iff.Cond, edge == 1, iff})
+	}
+	if heads != 1 {
+		return nil
+	}
+	return gs
 }
 
 // guardOnField: the guard compares (any operator) a load of field f with something.
